@@ -105,10 +105,10 @@ int libwifi_parse_radiotap_info(struct libwifi_radiotap_info *info, const unsign
                 info->extended_flags = *it.this_arg;
                 break;
             case IEEE80211_RADIOTAP_RX_FLAGS:
-                info->rx_flags = *it.this_arg;
+                info->rx_flags = get_unaligned_le16(it.this_arg);
                 break;
             case IEEE80211_RADIOTAP_TX_FLAGS:
-                info->tx_flags = *it.this_arg;
+                info->tx_flags = get_unaligned_le16(it.this_arg);
                 break;
             case IEEE80211_RADIOTAP_MCS:
                 info->mcs.known = *(uint8_t *) it.this_arg;
